@@ -185,4 +185,13 @@ static std::string selftest() {
   return "";
 }
 
-const Harness vf::HARNESS = {"C01", gen, check, enumerate, selftest};
+static Fields from_bytes(const uint8_t *d, size_t n) {
+  Fields f;
+  u32s s;
+  for (size_t i = 0; i < n && i < 400; i++) s += (char32_t)d[i];
+  f.set32("text", s);
+  f.seti("arm", 99);
+  return f;
+}
+
+const Harness vf::HARNESS = {"C01", gen, check, enumerate, selftest, from_bytes};
